@@ -436,4 +436,122 @@ theorem dcFinish_spec (A V G N : Nat) (P : Prop) (hV : V < B ^ N) (hV1 : 1 < V) 
             simp only [Bool.and_self, Bool.true_and, decide_eq_true_eq]
             exact hflag1
 
+/-! ### mpn_gcdext on the divide-and-conquer range -/
+
+theorem resOk_S {A V G : Nat} {r : Fin} (h : ResOk A V G r) :
+    r.g = G ∧ r.gn = nlimbs G ∧ r.up = r.S.natAbs ∧ r.usize.natAbs = nlimbs r.up ∧ (r.usize < 0 ↔ r.S < 0) ∧
+    (∃ t : Int, (A : Int) * r.S + V * t = G) ∧ CofBound V G r.S := by
+  obtain ⟨S, h1, h2, h3, h4, h5, h6⟩ := h
+  have hS : r.S = S := by
+    unfold Fin.S
+    rw [h3, h4]
+    by_cases hneg : S < 0
+    · have hn : 0 < nlimbs S.natAbs := nlimbs_pos (Int.natAbs_pos.mpr (by omega))
+      rw [if_pos hneg, if_pos (by omega)]; omega
+    · rw [if_neg hneg, if_neg (by simp)]; omega
+  rw [hS]
+  refine ⟨h1, h2, h3, by rw [h4, h3]; split <;> simp, ?_, h5, h6⟩
+  rw [h4]
+  by_cases hneg : S < 0
+  · have hn : 0 < nlimbs S.natAbs := nlimbs_pos (Int.natAbs_pos.mpr (by omega))
+    rw [if_pos hneg]; constructor <;> intro <;> omega
+  · rw [if_neg hneg]; constructor <;> intro <;> omega
+
+/-- mpn_gcdext (sized model, `hg` = mpn_hgcd) for n ≥ GCDEXT_DC_THRESHOLD limbs in V: the first round, the loop, the
+    exit code — given the contract of `hg` on every size it is called with (n − n/3 < R). -/
+theorem mpnGcdextS_dc_spec (hg : Nat → Nat → Nat → HM → StepRes) (R dcThr U V : Nat) (hok : HgOk hg R) (h10 : 10 ≤ dcThr)
+    (hV0 : 0 < V) (hle : nlimbs V ≤ nlimbs U) (hdc : dcThr ≤ nlimbs V) (hR : nlimbs V - nlimbs V / 3 < R) :
+    let r := mpnGcdextS hg dcThr U (nlimbs U) V (nlimbs V)
+    mpnGcdextOk U V r.g r.S ∧ CofBound V r.g r.S ∧ r.gn = nlimbs r.g ∧ r.up = r.S.natAbs ∧ r.usize.natAbs = nlimbs r.up ∧
+      (r.usize < 0 ↔ r.S < 0) ∧ (HgMn hg → r.ok = true) := by
+  intro r
+  have hnV := nlimbs_bounds V hV0
+  have hn1 := nlimbs_pos hV0
+  have hV1 : 1 < V := by
+    have h2 : B ^ 1 ≤ B ^ (nlimbs V - 1) := Nat.pow_le_pow_right B_pos (by omega)
+    rw [pow_one] at h2
+    have hB : 2 ≤ B := by rw [B_eq]; norm_num
+    omega
+  -- the general conversion from ResOk w.r.t. A ≡ U (mod V)
+  have conv : ∀ (A : Nat) (q : Nat) (r : Fin), U = A + V * q → ResOk A V (Nat.gcd A V) r →
+      mpnGcdextOk U V r.g r.S ∧ CofBound V r.g r.S ∧ r.gn = nlimbs r.g ∧ r.up = r.S.natAbs ∧ r.usize.natAbs = nlimbs r.up ∧
+      (r.usize < 0 ↔ r.S < 0) := by
+    intro A q r hU hres
+    obtain ⟨k1, k2, k3, k4, k5, ⟨t, ht⟩, k7⟩ := resOk_S hres
+    have hG : Nat.gcd A V = Nat.gcd U V := by
+      rw [hU, Nat.gcd_comm, Nat.gcd_comm (A + V * q) V, Nat.gcd_add_mul_left_right]
+    rw [hG] at k1 k2 k7 ht
+    rw [k1]
+    refine ⟨Mpir.C07x.cofBound_contract U V _ _ hV0 rfl ?_ k7, k7, k2, k3, k4, k5⟩
+    apply Int.emod_eq_zero_of_dvd
+    refine ⟨t - q * r.S, ?_⟩
+    have hUi : (U : Int) = A + V * q := by exact_mod_cast hU
+    rw [hUi]
+    linear_combination (-1 : Int) * ht
+  have main : ∀ (A q : Nat) (r : Fin), U = A + V * q → 0 < A → A < B ^ nlimbs V →
+      r = (match dcFirst hg (nlimbs V + 1) A V (nlimbs V) with
+        | .inr r => r
+        | .inl s =>
+            match dcLoop hg dcThr (nlimbs V + 1) (s.a + s.b + 1) s with
+            | .inr r => r
+            | .inl s => dcFinish (nlimbs V + 1) s) →
+      mpnGcdextOk U V r.g r.S ∧ CofBound V r.g r.S ∧ r.gn = nlimbs r.g ∧ r.up = r.S.natAbs ∧ r.usize.natAbs = nlimbs r.up ∧
+      (r.usize < 0 ↔ r.S < 0) ∧ (HgMn hg → r.ok = true) := by
+    intro A q r hU hA0 hAB hr
+    have hl : LInv A V (nlimbs V) := ⟨hA0, hV0, hAB, hnV.1, Or.inr hnV.2, hn1⟩
+    have d1 := dcFirst_spec hg R A V (nlimbs V) hok (by omega) (by omega) hl
+    cases hd : dcFirst hg (nlimbs V + 1) A V (nlimbs V) with
+    | inr r' =>
+      rw [hd] at d1 hr
+      simp only at d1 hr
+      subst hr
+      obtain ⟨c1, c2, c3, c4, c5, c6⟩ := conv A q r hU d1.1
+      exact ⟨c1, c2, c3, c4, c5, c6, d1.2⟩
+    | inl s =>
+      rw [hd] at d1 hr
+      simp only at d1 hr
+      have d2 := dcLoop_spec hg R dcThr A V (Nat.gcd A V) (nlimbs V) hok (by omega) hR hAB hnV.1 (s.a + s.b + 1) s d1 (by omega)
+      cases hd2 : dcLoop hg dcThr (nlimbs V + 1) (s.a + s.b + 1) s with
+      | inr r' =>
+        rw [hd2] at d2 hr
+        simp only at d2 hr
+        subst hr
+        obtain ⟨c1, c2, c3, c4, c5, c6⟩ := conv A q r hU d2.1
+        exact ⟨c1, c2, c3, c4, c5, c6, d2.2⟩
+      | inl s' =>
+        rw [hd2] at d2 hr
+        simp only at d2 hr
+        obtain ⟨e1, e2⟩ := dcFinish_spec A V (Nat.gcd A V) (nlimbs V) (HgMn hg) hnV.1 hV1 s' d2
+        subst hr
+        obtain ⟨c1, c2, c3, c4, c5, c6⟩ := conv A q _ hU e1
+        exact ⟨c1, c2, c3, c4, c5, c6, e2⟩
+  have hr : r = mpnGcdextS hg dcThr U (nlimbs U) V (nlimbs V) := rfl
+  clear_value r
+  unfold mpnGcdextS at hr
+  dsimp only at hr
+  by_cases hgt : nlimbs U > nlimbs V
+  · simp only [if_pos hgt] at hr
+    have hlt' : U % V < V := Nat.mod_lt _ hV0
+    by_cases hz : U % V = 0
+    · rw [if_pos ⟨hgt, hz⟩] at hr
+      subst hr
+      have hVU : V ∣ U := Nat.dvd_of_mod_eq_zero hz
+      have hS : (⟨V, nlimbs V, 0, 0, true⟩ : Fin).S = 0 := by unfold Fin.S; simp
+      rw [hS]
+      refine ⟨⟨(Nat.gcd_eq_right hVU).symm, by simp, Or.inr (by simpa using hV0), by simp [hz]⟩, Or.inl (by simpa using hV0), rfl, rfl, ?_, by simp, fun _ => rfl⟩
+      show (0 : Int).natAbs = nlimbs 0
+      rw [nlimbs_zero]; rfl
+    · rw [if_neg (fun h => hz h.2), if_neg (by omega)] at hr
+      exact main (U % V) (U / V) r (Nat.mod_add_div U V).symm (Nat.pos_of_ne_zero hz) (lt_trans hlt' hnV.1) hr
+  · simp only [if_neg hgt] at hr
+    rw [if_neg (fun h => hgt h.1), if_neg (by omega)] at hr
+    have hn : nlimbs U = nlimbs V := by omega
+    have hU0 : 0 < U := by
+      rcases Nat.eq_zero_or_pos U with h | h
+      · rw [h, nlimbs_zero] at hn; omega
+      · exact h
+    have hnU := nlimbs_bounds U hU0
+    rw [hn] at hnU
+    exact main U 0 r (by simp) hU0 hnU.1 hr
+
 end Mpir.Gcdext
